@@ -43,6 +43,9 @@ type scriptReader struct {
 	off    int
 	script []int
 	call   int
+	// visible, when non-zero, is how much of stream exists so far; growAt is the call before which the rest appears
+	// (a buffer that is still being filled when it is wrapped)
+	visible, growAt int
 
 	limit    uint64
 	returned uint64 // bytes returned so far by this reader
@@ -63,8 +66,14 @@ func (s *scriptReader) Read(p []byte) (int, error) {
 	if s.call < len(s.script) {
 		kind = s.script[s.call]
 	}
+	if s.visible > 0 && s.call >= s.growAt {
+		s.visible = len(s.stream)
+	}
 	s.call++
 	rest := s.stream[s.off:]
+	if s.visible > 0 {
+		rest = s.stream[s.off:s.visible]
+	}
 	n, err := 0, error(nil)
 	switch kind {
 	case rFull:
@@ -103,7 +112,22 @@ func (s *scriptReader) Read(p []byte) (int, error) {
 	return n, err
 }
 
+// lenReader is a scriptReader that also reports how many bytes it holds right now, as *bytes.Buffer,
+// *bytes.Reader and *strings.Reader do.
+type lenReader struct{ *scriptReader }
+
+func (l lenReader) Len() int {
+	if l.visible > 0 {
+		return l.visible - l.off
+	}
+	return len(l.stream) - l.off
+}
+
 type readCase struct {
+	// Grow, when non-zero: the source reports its length (Len), holds Stream bytes when it is wrapped and
+	// receives Grow more before its call number GrowAt
+	Grow   int `json:"grow"`
+	GrowAt int `json:"grow_at"`
 	Stream int `json:"stream_len"`
 	Limit  int `json:"limit"`
 	// Huge, when non-zero, replaces Limit: limits around 2^63 and 2^64 ("unlimited")
@@ -127,7 +151,17 @@ func runRead(c readCase) (what string, calls int) {
 		limit = c.Huge
 	}
 	src := &scriptReader{stream: stream(c.Stream), script: c.Script, limit: limit}
-	lr := ioutil.LimitReader(src, limit)
+	var wrapped io.Reader = src
+	if c.Grow > 0 {
+		src.stream, src.visible, src.growAt = stream(c.Stream+c.Grow), max(c.Stream, 1), c.GrowAt
+		if c.Stream == 0 {
+			src.visible, src.off = 1, 1 // an empty buffer: nothing visible yet (offset 1 of 1)
+			src.stream = append([]byte{'#'}, src.stream...)
+			src.returned = 0
+		}
+		wrapped = lenReader{src}
+	}
+	lr := ioutil.LimitReader(wrapped, limit)
 	var delivered []byte
 	for i, sz := range c.Bufs {
 		p := bytes.Repeat([]byte{0xEE}, sz)
@@ -179,7 +213,7 @@ func runRead(c readCase) (what string, calls int) {
 		if uint64(len(delivered)) > limit {
 			return fmt.Sprintf("call %d: %d bytes delivered with limit %d", i, len(delivered), limit), calls
 		}
-		if !bytes.HasPrefix(src.stream, delivered) {
+		if base := src.stream[len(src.stream)-c.Stream-c.Grow:]; !bytes.HasPrefix(base, delivered) {
 			return fmt.Sprintf("call %d: delivered %q is not a prefix of the stream %q", i, delivered, src.stream), calls
 		}
 	}
@@ -230,6 +264,8 @@ type writeCase struct {
 	Huge uint `json:"huge_limit"`
 }
 
+var writePattern = []byte("A\u00e9\u20acB\U0001f600\x80C\xbfD\u00e9\u00e9")
+
 func runWrite(c writeCase) (what string, calls int) {
 	sw := &scriptWriter{script: c.Script}
 	limit := uint(c.Limit)
@@ -240,9 +276,10 @@ func runWrite(c writeCase) (what string, calls int) {
 	var all []byte
 	next := 0
 	for i, sz := range c.Chunks {
+		// text with multi-byte runes and stray continuation bytes: a cut may fall anywhere
 		b := make([]byte, sz)
 		for k := range b {
-			b[k] = byte('A' + next%26)
+			b[k] = writePattern[next%len(writePattern)]
 			next++
 		}
 		orig := bytes.Clone(b)
@@ -472,6 +509,28 @@ func TestReader(t *testing.T) {
 			r.Eval(evals)
 			r.Count("reader_histories_with_negative_counts", int64(hi-lo))
 		})
+	}
+	// sources that report their length and are still being filled when they are wrapped
+	{
+		var ge int64
+		for streamLen := 0; streamLen <= 4; streamLen++ {
+			for grow := 1; grow <= 6; grow++ {
+				for limit := 0; limit <= 8; limit++ {
+					for growAt := 0; growAt <= 2; growAt++ {
+						for _, bufs := range [][]int{{8, 8, 8, 8}, {1, 1, 1, 1, 1, 1, 1, 1, 1, 1}, {2, 3, 2, 3, 8}, {3, 0, 8, 1}} {
+							c := readCase{Stream: streamLen, Limit: limit, Grow: grow, GrowAt: growAt, Bufs: bufs}
+							what, calls := runRead(c)
+							ge += int64(calls)
+							if what != "" {
+								r.Violation(fmt.Sprintf("reader-grow:%v", c), fmt.Sprintf("LimitReader(a source with Len() holding %d bytes that receives %d more before its call #%d, n=%d), buffers %v: %s", streamLen, grow, growAt, limit, bufs, what), c)
+							}
+						}
+					}
+				}
+			}
+		}
+		r.Eval(ge)
+		r.Count("reader_growing_source_calls", ge)
 	}
 	// limits at the top of the uint64 range ("unlimited"): everything passes through, nothing is refused
 	var he int64
